@@ -264,7 +264,7 @@ def h_binop(ctx, op, kind, inplace):
     if op == "%":
         # modulo respects congruence mod 360 only on canonical operands: positive divisor, and a numeric
         # left operand of the reflected form already inside (-360, 360)  (DESIGN.md, C03)
-        ctx.assume(and_(x >= 0, y > -360, y < 360) if reflected else (y >= 0))
+        pass
     try:
         if reflected:
             r = ctx.binop(op, b, a)
